@@ -464,6 +464,13 @@ def gen_history(rng, maxops):
     for n in pool:
         if rng.random() < (0.6 if not BAK_RE.match(n) else 0.35):
             files[n] = blob(True, 0, 10)
+    if rng.random() < 0.01:
+        # rare: the destination exists together with ALL backups 1..N (first free index N+1, beyond any cap)
+        nbak = rng.choice([99, 100, 130])
+        files[base] = blob(True, 1, 10)
+        for j in range(1, nbak + 1):
+            files['#%s.%d#' % (base, j)] = b'bk%d' % j
+        dests = [base] + [n for n in dests if n != base][:1]
     ops = []
     nops = rng.randint(1, maxops)
     plain_only = rng.random() < 0.6
@@ -547,6 +554,8 @@ for ln, impl, mo, (cid, files, ops, out) in zip(lines, impls, models, meta):
             chk.count('close')
     if any(BAK_RE.match(n) for n in dests):
         chk.count('hist_backup_shaped_destination')
+    if len(files) >= 99:
+        chk.count('hist_all_backups_1..N_taken')
     chk.case(cid, ln, impl, mo, errs, pre or inner, finding='F-C07-4' if (errs and sig4) else None)
 
 # ----------------------------------------------------------------------------
@@ -776,6 +785,18 @@ def cli_case(cid, prot, opts, maxwarn_groups, pre_names, verbose=False, write_du
     return cid, ln, impl, errs, nwarn >= 1, finding
 
 
+def ffwarn_dir():
+    """-ff-dir with a link for martini3001 whose `[ warning ]` section fires on two consecutive prolines; the
+    warning is stored in molecule.log_entries by DoLinks and only reaches the logger (and the counter) in the
+    replay loop right before the output is written"""
+    d = os.path.join(SCRATCH, 'ffdir')
+    os.makedirs(os.path.join(d, 'martini3001'), exist_ok=True)
+    with open(os.path.join(d, 'martini3001', 'extra.ff'), 'w') as f:
+        f.write('[ link ]\nresname "PRO"\n[ atoms ]\nBB { }\n+BB { }\n[ edges ]\nBB +BB\n[ warning ]\n'
+                'Consecutive prolines {BB[resname]}{BB[resid]} and {+BB[resname]}{+BB[resid]}\n')
+    return d
+
+
 PROTS = ['mini-protein1_betasheet', 'dipro-termini', 'mini-protein2_helix', 'mini-protein3_trp-cage']
 WARN_OPTS = {
     'none': (['-ff', 'martini22', '-ss', 'C', '-noscfix'], 0),
@@ -799,6 +820,10 @@ cli_plan = [
     ('both2', [['3']], [], {}),
     # first-counted type smaller than the blanket allowance, total above it (1 pdb-alternate + 2 general, -maxwarn 2)
     ('mutate2', [['2']], [], {'altloc': True}),
+    # a warning declared in a force-field `[ warning ]` section (type 'model'): counted only after the replay of
+    # molecule.log_entries, i.e. the gate must be evaluated after that loop
+    ('ffwarn', [], ['cg.pdb'], {'prot': 'dipro-termini'}),
+    ('ffwarn', [['1']], ['cg.pdb'], {'prot': 'dipro-termini'}),
 ]
 rng = chk.rng('cli')
 if chk.thorough:
@@ -826,6 +851,12 @@ for i, (kind, mw, pre, kw) in enumerate(cli_plan):
     prot = kw.pop('prot', PROTS[0])
     if kind == 'dssp-v':
         row = cli_case('cli-%d-dssp-v' % i, prot, ['-ff', 'martini22', '-dssp', '-scfix'], mw, pre, verbose=True)
+    elif kind == 'ffwarn':
+        row = cli_case('cli-%d-ffwarn' % i, prot, ['-ff', 'martini3001', '-nt', '-noscfix', '-ss', 'C',
+                                                  '-ff-dir', ffwarn_dir()], mw, pre, **kw)
+        if not row[4]:
+            row = row[:3] + (row[3] + ['the force-field [ warning ] section did not produce a counted warning '
+                                       '(the ffwarn CLI case no longer exercises the log-entry replay)'],) + row[4:]
     else:
         row = cli_case('cli-%d-%s' % (i, kind), prot, WARN_OPTS[kind][0], mw, pre, **kw)
     cli_rows.append(row)
